@@ -81,6 +81,12 @@ def collect(prop):
                     continue
                 if prop in md.get("detected_by", []) or (md.get("property") == prop and md.get("expect_detect", True)):
                     items.append(("patch", {"patch": patch, "expect": "detect", "note": "seeded/%s" % d, "file": d}))
+    td = os.path.join(VERIF, "twins")
+    if os.path.isdir(td):
+        for f in sorted(os.listdir(td)):
+            if f.endswith(".patch.diff"):
+                items.append(("patch", {"patch": os.path.join(td, f), "expect": "silent", "note": "behaviour-preserving refactoring twins/%s" % f,
+                                        "file": f}))
     return items
 
 
